@@ -22,6 +22,7 @@ META = dict(
     stubs=["cvxpy/CBC/GLPK = contract stub", "numba.njit = identity", "np float arrays = object arrays of z3 reals"],
     assumptions=["pair dissimilarities symmetric and >= 0", "delta_empty > 0", "alpha, beta >= 0"],
     cfg_budget_s=dict(quick=200, thorough=900),
+    replay_alarm_s=300,
 )
 
 
@@ -82,7 +83,17 @@ def harness(cfg, ns):
     return h
 
 
+def real_checks(tier):
+    """concrete cross-check beyond the solver bound: medium continua (3x5, 4x4, 2x9, 5x3 units, an annotator without units, overlapping /
+    nested / unlabelled units) on the real build against an independent MILP (scipy / HiGHS) over ALL tuples, both back-ends"""
+    import os
+    return [dict(kind="medium", name="best alignment of medium continua == independent MILP optimum over all tuples (both back-ends)",
+                 seed=int(os.environ.get("VERIF_SEED", "0") or 0))]
+
+
 def replay(case):
+    if case.get("kind") == "medium":
+        return pipeline.real_medium_check(case, mode="best", backends=("cbc", "glpk_import"))
     return pipeline.replay_pipeline(case)
 
 
